@@ -580,5 +580,60 @@ def _dtype(res, index):
                             "float result with a TypeError instead of returning the solid")
                 else:
                     res.ok("DTYPE-1", label, nontrivial=False)
+                # MEMO-3: what a family hands out is the caller's own object, never storage shared through a memoising decorator
+                shared = sorted({loc[1] for (v_, s_, n_) in r["returns"] for loc in v_.all_aliases() if loc[0] == "memo"})
+                if shared:
+                    res.bad("MEMO-3", f"{label}:shared:{','.join(shared)}", f"{fn.file}:{fn.lineno}", f"{label} returns the array memoised by the caching decorator of "
+                            f"`{shared[0]}` itself (no copy): a caller that modifies its vertices in place changes what every later call with the same "
+                            "parameters returns - the family no longer generates the documented shape")
+                else:
+                    res.ok("MEMO-3", label, nontrivial=False)
     if n < 8:
         raise AnalysisError(f"DTYPE-1 examined only {n} family methods")
+    _argflow(res, index)
+
+
+def _argflow(res, index):
+    """ARG-1: get_shape(p, q, ...) hands each documented parameter to the same-named parameter of make_vertices as it was
+    given: the argument may depend on that parameter only.  An argument computed from *another* parameter as well
+    (`a, c = min(a, c), max(a, c)`, a swap, a clamp against a sibling) generates the solid of different parameter values."""
+    n = 0
+    for mname, m in sorted(index.modules.items()):
+        if not mname.startswith("coxeter.families"):
+            continue
+        for c in m.classes.values():
+            fn = c.methods.get("get_shape")
+            if fn is None:
+                continue
+            own = [p for p in fn.params[1:]]
+            if len(own) < 2:
+                continue
+            it = Interp(index)
+            try:
+                r = it.run_entry(fn, c)
+            except RecursionError:
+                continue
+            calls = [e for e in r["events"] if e.type == "enter" and not e.entry and e.callee.name == "make_vertices" and len(e.path) <= 2]
+            if not calls:
+                continue
+            e = calls[0]
+            n += 1
+            bound = e.args
+            bad = None
+            for p in own:
+                v = bound.get(p)
+                if v is None or v.has_const():
+                    continue
+                foreign = sorted((set(v.pdeps) & set(own)) - {p})
+                if foreign:
+                    bad = (p, foreign)
+                    break
+            label = f"{c.name}.get_shape"
+            if bad:
+                res.bad("ARG-1", f"{label}:{bad[0]}<-{','.join(bad[1])}", e.where(), f"{label} passes to make_vertices an `{bad[0]}` that is computed from the "
+                        f"parameter(s) {', '.join(bad[1])} as well (`{e.src()[:60]}`): for some documented parameter values the solid of other "
+                        "parameter values is generated")
+            else:
+                res.ok("ARG-1", label)
+    if n < 3:
+        raise AnalysisError(f"ARG-1 examined only {n} get_shape -> make_vertices calls (3 confirmed)")
